@@ -3,5 +3,5 @@ import sys, os
 sys.path.insert(0, os.path.join(os.path.dirname(os.path.abspath(__file__)), '..', 'lib'))
 from checklib import Check, Family
 c = Check('SMOKE')
-c.run_e1([Family('smoke', 't_smoke.c', 'h_smoke', opts={'pagesize': 256})])
+c.run_e1([Family('smoke', 't_smoke.c', 'h_smoke', opts={'pagesize': 256}), Family('proc', 't_proc.c', 'h_proc')])
 c.finish(functions=['cmi_hashheap_*'])
